@@ -14,8 +14,8 @@ CONSTANTS
   LoadResults = {}
   SaveResults = {TRUE}
   Jumps = {1}
-  MaxTicks = 3
-  MaxStarts = 4
+  MaxTicks = 2
+  MaxStarts = 3
   MaxVer = 4
   MaxEnt = 1
   MaxPurges = 0
